@@ -47,7 +47,7 @@ CHECKS = {
   "The programs quantifier is finite and is covered completely (multi-scalar routines: every set partition of receiver+point slots x every partition of scalar slots up to 5 terms, 6 in the thorough tier: 23 k / 379 k programs), each for every tuple of a small value alphabet; operands that are not the receiver, byte slices up to cap, and the scalar/point slices (headers, elements, spare capacity, pointees) are compared bit for bit with snapshots.",
   "value alphabets are small (4-6 values per type); the distinct-storage run is the oracle (differential)", "3 C11"),
  "C12": (MC, "opseq", "explicit-state breadth-first search over a register machine whose transitions are the real exported operations; exact-state de-duplication; invariant evaluated with math/big in every reachable state",
-  "Every exported Point-writing operation with every receiver/argument register choice, from 10-125 initial register assignments (uninitialised, identity, generator, order-8 point, mixed point in a scaled representation), to depth 2 on the full machine and depth 3 on a reduced one; in every state Z!=0, both curve identities, agreement with a shadow model, and Equal against identity/generator are checked.",
+  "Every exported Point-writing operation with every receiver/argument register choice, from 10-125 initial register assignments (uninitialised, identity, generator, order-8 point, mixed point in a scaled representation), to depth 2 on the full machine and depth 3 on a reduced one; in every state Z!=0, both curve identities, agreement with a shadow model, and Equal against identity/generator are checked. Both multi-scalar routines are also run over 21 (thorough 29) term-count size classes up to 257 (1025) x five scalar shapes: the result must be a valid point equal to the model.",
   "math/big; histories longer than the completed depth and values outside the alphabets are not decided", "3 C12"),
  "C13": (EX, "lattice", "exhaustive enumeration of coordinate quadruples (9^4 alphabet product, all limb forms of 0 and 1, all single-coordinate deviations of valid quadruples) against the three conditions evaluated in math/big",
   "Accept iff Z != 0 and both identities hold; accepted point equals (X/Z, Y/Z); export/re-import of every operation-produced representation.",
@@ -66,7 +66,7 @@ CHECKS = {
   "sequential consistency + happens-before approximates the Go memory model; scheduling granularity = synchronisation operations and accesses to package-level variables (directly or through analysed aliases); heap objects shared by other routes are covered by the value oracle, the pool/ownership faults and the sampled -race pass only; 2-4 threads", "3 C18"),
  "C19": (MC, "opseq(replay)",
   "stateless exhaustive exploration of all call/scribble/operation sequences up to a depth bound, each replayed from fresh values in isolated processes; invariants (memory disjointness, unchanged sources and earlier results, constant probe battery) evaluated after every step",
-  "All sequences to depth 3 (quick) / 4 (thorough) over 20 events: 10 constructor/accessor calls, 6 scribbles over previously returned values (exported setters, zeroing, raw bytes up to cap), 4 heavy operations. After every step: sources bit-identical, earlier results unchanged, new results equal the model and occupy fresh memory, and a 70-call probe battery on fixed arguments (receivers with different histories included) is byte-identical. Sharded over 16 processes so that package state is never shared between explorers.",
+  "All sequences to depth 3 (quick) / 4 (thorough) over 20 events: 10 constructor/accessor calls, 6 scribbles over previously returned values (exported setters, zeroing, raw bytes up to cap), 4 heavy operations. After every step: sources bit-identical, earlier results unchanged, new results equal the model and occupy fresh memory, and a 70-call probe battery on fixed arguments (receivers with different histories included) is byte-identical. Sharded over 16 processes so that package state is never shared between explorers. Longer histories: every byte-input setter fed 20 values through one reused caller buffer (two passes), and 40 (thorough 72) pairwise distinct points pushed through each of 13 operations with every earlier point asked again after each new one, plus multi-scalar calls over all earlier points and one new point; all answers compared with the model.",
   "package state is observed behaviourally (probe battery) and through pointer ranges, not through a snapshot of package variables", "3 C19"),
  "C20": (EX, "lattice+two-build",
   "exhaustive enumeration of the corner lattice of the closed box for the dispatched vs portable multiply/square in one build, plus the quick enumerations of twelve other properties executed under both build configurations with digest comparison; dispatch established from the binaries",
